@@ -17,6 +17,7 @@ import (
 	"go/token"
 	"go/types"
 	"regexp"
+	"sort"
 	"strconv"
 	"strings"
 )
@@ -202,6 +203,105 @@ func c07PollLoop(fd *ast.FuncDecl) (pf c07PollFacts, why string) {
 	return pf, ""
 }
 
+// c07AnswerIdChecks lists every place in QueryWithData / Query / SendAndReceive where the code above the communicator looks at WHICH
+// answer it was handed: any use of the value returned by Communicator.SendAndReceive other than handing it whole to
+// Serializer.DecodeDnsResponseWithParams, and any comparison that involves a message id, the ring of query ids, a question or a name.
+func c07AnswerIdChecks(f *ast.File) (checks []string, why string) {
+	q := findFunc(f, "ClientDnsConnection", "QueryWithData")
+	if q == nil {
+		return nil, "ClientDnsConnection.QueryWithData not found"
+	}
+	// the variable that receives the communicator's answer
+	resp := ""
+	allowed := map[token.Pos]bool{}
+	ast.Inspect(q.Body, func(x ast.Node) bool {
+		as, ok := x.(*ast.AssignStmt)
+		if !ok || len(as.Rhs) != 1 {
+			return true
+		}
+		if ce, ok := as.Rhs[0].(*ast.CallExpr); ok && c07Sel(ce.Fun) == "dc.Communicator.SendAndReceive" && len(as.Lhs) == 3 {
+			if id, ok := as.Lhs[0].(*ast.Ident); ok && resp == "" {
+				resp = id.Name
+				allowed[id.Pos()] = true
+			}
+		}
+		return true
+	})
+	if resp == "" {
+		return nil, "`<answer>, _, err := dc.Communicator.SendAndReceive(…)` not found in QueryWithData"
+	}
+	decoded := 0
+	ast.Inspect(q.Body, func(x ast.Node) bool {
+		if ce, ok := x.(*ast.CallExpr); ok {
+			if se, ok := ce.Fun.(*ast.SelectorExpr); ok && se.Sel.Name == "DecodeDnsResponseWithParams" {
+				for _, a := range ce.Args {
+					if id, ok := a.(*ast.Ident); ok && id.Name == resp {
+						allowed[id.Pos()] = true
+						decoded++
+					}
+				}
+			}
+		}
+		return true
+	})
+	if decoded != 1 {
+		return nil, "the communicator's answer is not handed to Serializer.DecodeDnsResponseWithParams exactly once"
+	}
+	render := func(n ast.Node) string {
+		if e, ok := n.(ast.Expr); ok {
+			if s := c07Sel(e); !strings.Contains(s, "?") {
+				return s
+			}
+		}
+		return fmt.Sprintf("%T", n)
+	}
+	for _, fn := range []string{"QueryWithData", "Query", "SendAndReceive"} {
+		fd := findFunc(f, "ClientDnsConnection", fn)
+		if fd == nil {
+			return nil, "ClientDnsConnection." + fn + " not found"
+		}
+		var stack []ast.Node
+		ast.Inspect(fd.Body, func(x ast.Node) bool {
+			if x == nil {
+				stack = stack[:len(stack)-1]
+				return true
+			}
+			switch v := x.(type) {
+			case *ast.Ident:
+				if fn == "QueryWithData" && v.Name == resp && !allowed[v.Pos()] && len(stack) > 0 {
+					checks = append(checks, fn+": "+render(stack[len(stack)-1]))
+				}
+			case *ast.BinaryExpr:
+				if v.Op == token.EQL || v.Op == token.NEQ || v.Op == token.LSS || v.Op == token.GTR || v.Op == token.LEQ || v.Op == token.GEQ {
+					hit := false
+					ast.Inspect(v, func(y ast.Node) bool {
+						switch w := y.(type) {
+						case *ast.SelectorExpr:
+							switch w.Sel.Name {
+							case "Id", "chunkId", "Question", "Name", "MsgHdr", "Qtype":
+								hit = true
+							}
+						case *ast.Ident:
+							if w.Name == "chunkId" {
+								hit = true
+							}
+						}
+						return true
+					})
+					// the one comparison the id generator itself makes: 0 is "no query" in iodined
+					if hit && c07Sel(v) != "dc.chunkId[0]==0" && render(v) != "dc.chunkId[0]==0" {
+						checks = append(checks, fn+": "+render(v))
+					}
+				}
+			}
+			stack = append(stack, x)
+			return true
+		})
+	}
+	sort.Strings(checks)
+	return checks, ""
+}
+
 func c07Sel(e ast.Expr) string {
 	switch x := e.(type) {
 	case *ast.Ident:
@@ -218,6 +318,8 @@ func c07Sel(e ast.Expr) string {
 		return x.Value
 	case *ast.BinaryExpr:
 		return c07Sel(x.X) + x.Op.String() + c07Sel(x.Y)
+	case *ast.IndexExpr:
+		return c07Sel(x.X) + "[" + c07Sel(x.Index) + "]"
 	}
 	return "?"
 }
@@ -548,6 +650,18 @@ func init() {
 			}
 			if tries < 0 || test < 0 || !wraps {
 				fail("C07: SendAndReceive retry loop / timeout test / QueryWithData wrapping not in a recognised shape (tries %d, test %d, wraps %v)", tries, test, wraps)
+			}
+			{
+				checks, why := c07AnswerIdChecks(f)
+				if why != "" {
+					fail("C07: QueryWithData is not in a recognised shape: %s", why)
+					checks = []string{"unrecognised: " + why}
+				}
+				qs := make([]string, len(checks))
+				for i, c := range checks {
+					qs[i] = strconv.Quote(c)
+				}
+				fmt.Fprintf(b, "/-- every place in ClientDnsConnection.QueryWithData / Query / SendAndReceive that looks at WHICH answer the communicator handed up:\n    uses of the returned message other than handing it whole to Serializer.DecodeDnsResponseWithParams, and comparisons involving a message id,\n    the ring of query ids (`dc.chunkId`, written only), a question or a name.  Empty: an answer is an answer. -/\ndef c07AnswerIdChecks : List String := [%s]\n", strings.Join(qs, ", "))
 			}
 			fmt.Fprintf(b, "/-- ClientDnsConnection.SendAndReceive: `for i := 1; i <= tries; i++` -/\ndef c07Tries : Nat := %d\n", tries)
 			fmt.Fprintf(b, "/-- how SendAndReceive recognises a timed-out Query (whose error QueryWithData has wrapped):\n    0 = `err == smux.ErrTimeout` (identity with the sentinel: never true for a wrapped error), 1 = `isTimeout(err)` (cause is a net timeout or the sentinel) -/\ndef c07TimeoutTest : Nat := %d\n", test)
